@@ -235,10 +235,11 @@ def parts(tier):
 
     def gen_dy():
         for s in sets:
-            e = D.labelled(s)
-            for a in win:
-                for b in win:
-                    yield (e, lo, hi, a, b)
+            # (second: intervals labelled with the empty string, as openTextgrid(includeEmptyIntervals=True) delivers them, next to labelled ones)
+            for e in (D.labelled(s),) + ((D.labelled(s, ("", "b", "")),) if 1 <= len(s) <= 2 else ()):
+                for a in win:
+                    for b in win:
+                        yield (e, lo, hi, a, b)
 
     ps.append(InputPart(
         "crop-intervals-dyadic", gen_dy, lambda c: _check_iv(c, True),
@@ -282,13 +283,22 @@ def parts(tier):
             for a in dwin:
                 for b in dwin:
                     yield (p, 0.1, 2.3, a, b)
+        # labels that sort after / before everything a program is likely to use as a sentinel (a character beyond the basic plane, U+FFFF with and
+        # without more text, NUL): a label is carried, never compared
+        for labs in (("\U0001f600 go", "\uffffz", "\uffff"), ("\x00", "\uffff", "\U0010ffff")):
+            for s in psets:
+                if 1 <= len(s) <= 2:
+                    p = D.labelled_points(s, labs)
+                    for a in pwin:
+                        for b in pwin:
+                            yield (p, 0.0, 4.0, a, b)
 
     def chk_pt(c):
         return _check_pt(c, c[1] == 0.0)
 
     ps.append(InputPart(
         "crop-points", gen_pt, chk_pt,
-        rule="all point subsets of the unit grid (exact) and of the decimal grid (1e-9) x all windows",
+        rule="all point subsets of the unit grid (exact) and of the decimal grid (1e-9) x all windows; the subsets of <= 2 points also with labels that sort last / first (astral character, U+FFFF, NUL)",
         bounds={"max_points": 3 if quick else 4}))
 
     # ulp-neighbour grid: boundaries and window edges one ulp apart (a tolerant comparison is wrong here)
